@@ -171,9 +171,16 @@ class C12(RS.StepProp):
             return self._hist[key]
         laa, legacy = case['laa'], case['legacy']
         rng = random.Random(case['hseed'])
+        # process state first disturbed by resolving the same text under the OTHER descriptor convention
+        RS.dump_all_from_string(s, laa, not legacy)
         ref = RS.dump_all_from_string(s, laa, legacy)
         res = {'ref_ok': not any(x.startswith(('EXC:', 'CTOR:')) for x in ref), 'calls': []}
         if res['ref_ok']:
+            # the reference itself must be what a fresh interpreter computes
+            if (s, laa, legacy) not in self._hash:
+                self.prefetch_hash([case])
+            fresh = self._hash[(s, laa, legacy)][0]
+            res['fresh'] = fresh is not None and RS.digest(json.dumps(ref)) == fresh
             elements = re.findall(BLOCK_RE, s)
             dicts = MoleculeResolver.read_fragment_strings(elements[1:], last_all_atom=laa)
             base = read_cgsmiles(elements[0])
@@ -211,7 +218,7 @@ class C12(RS.StepProp):
                 res['calls'].append([kind, how, ok])
                 same = same and ok
                 libs = libs and RS.canon_dicts(dicts) == snap
-            res['same'], res['libs'] = same, libs
+            res['same'], res['libs'] = same and res['fresh'], libs
         self._hist[key] = res
         return res
 
@@ -224,7 +231,7 @@ class C12(RS.StepProp):
             h = self.history(case)
             if not h['ref_ok']:
                 return {'skip': 'reference run raised'}
-            return {'ok': h['same'] if exp == 'history' else h['libs'], 'calls': h['calls']}
+            return {'ok': h['same'] if exp == 'history' else h['libs'], 'calls': h['calls'], 'fresh': h.get('fresh')}
         if exp == 'hashseed':
             key = (s, laa, legacy)
             if key not in self._hash:
@@ -291,6 +298,12 @@ class C12(RS.StepProp):
         impl['names'] = [[n, dict(a).get('atomname')] for n, a, _ in (rec.get('mol') or [])][:40] if rec['aa'] else None
         impl['_k'] = self.put_term([tab], 'C12Check.CStep ' + RS.lit_stepcase(rec, tab))
         return impl
+
+    def python_oracle(self, case, impl):
+        """the determinism experiments are decided in Python: usable when the Coq side cannot be built"""
+        if case['kind'] == 'det' and impl.get('ok') is False:
+            return 10 + EXPS[case['exp']]
+        return None
 
     def known_class(self, case, impl, code):
         if case['kind'] == 'step' and impl.get('shared') and code == 5:
